@@ -55,6 +55,13 @@ impl Divert {
     }
 
     pub fn get_target_path_string(self: &Rc<Self>) -> Option<String> {
+        // The "path" of an external call is the function's name, not a location: it must
+        // not be shortened to a path relative to the call site (a call from inside the
+        // Ink fallback function of the same name would become ".^").
+        if self.is_external {
+            return self.get_target_path().as_ref().map(|p| p.get_components_string());
+        }
+
         self.get_target_path()
             .as_ref()
             .map(|p| self.compact_path_string(p))
